@@ -69,7 +69,7 @@ func newStyleFor(html *HTML, sheets []sheet, presentationalHints bool,
 		for _, decl := range validation.PreprocessDeclarations(styleAttr.baseUrl, styleAttr.declaration) {
 			// name, values, importance = decl
 			precedence := declarationPrecedence("author", decl.Important)
-			we := weight{precedence: precedence, specificity: styleAttr.specificity}
+			we := weight{precedence: precedence, styleAttr: styleAttr.isStyleAttr, specificity: styleAttr.specificity}
 			oldWeight := style[decl.Name].weight
 			if oldWeight.isNone() || oldWeight.Less(we) {
 				style[decl.Name] = weigthedValue{weight: we, value: decl.Value, shortand: decl.Shortand}
@@ -748,7 +748,7 @@ func findStyleAttributes(tree *utils.HTMLNode, presentationalHints bool, baseUrl
 		specificity := selector.Specificity{1, 0, 0}
 		styleAttribute := element.Get("style")
 		if styleAttribute != "" {
-			out = append(out, styleAttrSpec{specificity: specificity, styleAttr: checkStyleAttribute(element, styleAttribute)})
+			out = append(out, styleAttrSpec{specificity: specificity, isStyleAttr: true, styleAttr: checkStyleAttribute(element, styleAttribute)})
 		}
 		if !presentationalHints {
 			continue
@@ -1083,6 +1083,7 @@ type Element interface {
 
 type weight struct {
 	precedence  uint8
+	styleAttr   bool // declaration of a style attribute: outranks every selector
 	specificity selector.Specificity
 }
 
@@ -1092,7 +1093,13 @@ func (w weight) isNone() bool {
 
 // Less return `true` if w <= other
 func (w weight) Less(other weight) bool {
-	return w.precedence < other.precedence || (w.precedence == other.precedence && (w.specificity.Less(other.specificity) || w.specificity == other.specificity))
+	if w.precedence != other.precedence {
+		return w.precedence < other.precedence
+	}
+	if w.styleAttr != other.styleAttr {
+		return other.styleAttr
+	}
+	return w.specificity.Less(other.specificity) || w.specificity == other.specificity
 }
 
 type weigthedValue struct {
@@ -1439,6 +1446,7 @@ type styleAttr struct {
 type styleAttrSpec struct {
 	styleAttr
 	specificity selector.Specificity
+	isStyleAttr bool // true for the style attribute, false for presentational hints
 }
 
 // Compute all the computed styles of all elements in `html` document.
